@@ -130,6 +130,34 @@ def once_method(tree, defaults, name, weight_ok):
 
 
 METHODS = ["cyclic", "minutely", "hourly", "daily", "weekly"]
+DEPRECATED = '''
+def wrapper(func: Callable[..., Any]) -> Callable[..., Any]:
+    @wraps(func)
+    def real_wrapper(*args: tuple[Any, ...], **kwargs: dict[str, Any]) -> Any:
+        for f in fields:
+            if f in kwargs and kwargs[f] is not None:
+                warnings.warn(
+                    (
+                        f"Using the `{f}` argument is deprecated and will "
+                        "be removed in the next minor release."
+                    ),
+                    DeprecationWarning,
+                    stacklevel=3,
+                )
+        return func(*args, **kwargs)
+    return real_wrapper
+return wrapper
+'''
+
+
+def check_deprecated(tree):
+    """the decorator of the five scheduling methods: warn, THEN call the method with unchanged arguments"""
+    fds = [f for f in tree.body if isinstance(f, ast.FunctionDef) and f.name == "deprecated"]
+    if len(fds) != 1:
+        raise Untranslatable("untranslatable: decorator `deprecated` not found")
+    body = [b for b in fds[0].body if not (isinstance(b, ast.Expr) and isinstance(b.value, ast.Constant) and isinstance(b.value.value, str))]
+    if ast.dump(ast.Module(body=body, type_ignores=[])) != ast.dump(ast.parse(DEPRECATED)):
+        fail(fds[0], "decorator `deprecated` differs from the template the translator knows")
 
 
 def schedule_types(tree, name):
@@ -139,6 +167,8 @@ def schedule_types(tree, name):
     for m in METHODS:
         fd = find_method(tree, "Scheduler", m)
         body = [b for b in fd.body if not (isinstance(b, ast.Expr) and isinstance(b.value, ast.Constant) and isinstance(b.value.value, str))]
+        if [ast.unparse(d) for d in fd.decorator_list] != ["deprecated(['delay'])"]:
+            fail(fd, "decorators of %s" % m)
         if [a.arg for a in fd.args.args] != ["self", "timing", "handle"] or fd.args.kwarg is None or fd.args.kwarg.arg != "kwargs":
             fail(fd, "signature of %s" % m)
         if len(body) != 2 or not isinstance(body[0], ast.Try) or not isinstance(body[1], ast.Return):
